@@ -111,9 +111,22 @@ func newRobustEnv(seed int64) *robustEnv {
 func (e *robustEnv) template(name string) interface{} {
 	base := ROp{Wf: "ok", Reveal: "ok", Sig: "ok", Dhash: true, Dv: "ok", Sfx: true, Delta: Delta{"addkey", 1}, T: 1, N: 1, Nu: 1, Nr: 2, Ao: 1, Kt: "p256", H: 256, Nuv: "norm"}
 
+	// (the signing keys of the templates carry a nonce: one more node to corrupt)
+	base.KeyNonce = true
+
 	switch name {
-	case "create", "update", "recover", "deactivate":
-		base.Type = name
+	case "create", "update", "recover", "deactivate", "update_disabled", "create_disabled":
+		base.Type = strings.TrimSuffix(name, "_disabled")
+		if strings.HasSuffix(name, "_disabled") {
+			// a patch action that the test protocol knows but does not enable; the delta of the create template
+			// uses ietf-json-patch as well, which the long-form protocol does not enable
+			base.Dv = "disabled"
+			if base.Type == "create" {
+				base.Dv = "ok"
+				base.Delta = Delta{"addmem", 1}
+			}
+		}
+
 		req, _ := e.conc.buildRequest(&base, 0)
 		tree := generic(json.RawMessage(req)).(map[string]interface{})
 
@@ -125,8 +138,13 @@ func (e *robustEnv) template(name string) interface{} {
 		}
 
 		return tree
-	case "longform":
+	case "longform", "longform_disabled":
 		base.Type = "create"
+
+		if name == "longform_disabled" {
+			base.Delta = Delta{"addmem", 1} // an ietf-json-patch: not enabled by the long-form protocol
+		}
+
 		req, _ := e.conc.buildRequest(&base, 0)
 		tree := generic(json.RawMessage(req)).(map[string]interface{})
 		delete(tree, "type")
@@ -475,7 +493,7 @@ func (e *robustEnv) call(ep, template string, input interface{}) (outcome string
 
 	raw := asBytes(input)
 
-	opType := operation.Type(template)
+	opType := operation.Type(strings.TrimSuffix(template, "_disabled"))
 	if m, ok := input.(map[string]interface{}); ok {
 		if t, ok := m["type"].(string); ok {
 			opType = operation.Type(t)
